@@ -308,7 +308,67 @@ func runC09(o *hx.Out, r *hx.Rand, thorough bool) {
 			}
 		}
 	}
+	// a first attempt that is lost (the connection is held, then dropped without a reply): whatever the client
+	// does next, a handler that runs sees a deadline no later than the caller's plus the transit of the request
+	// that actually reached it
+	for _, hold := range []time.Duration{150 * time.Millisecond, 400 * time.Millisecond} {
+		var hdl time.Time
+		var hhas, ran bool
+		var arrival time.Time
+		hs := httpgrpc.NewServer()
+		hs.RegisterService(hx.Desc(hx.SvcName), &hx.Svc{Unary: func(ctx context.Context, req *hx.Msg) (*hx.Msg, error) {
+			arrival = time.Now()
+			ran = true
+			hdl, hhas = ctx.Deadline()
+			return &hx.Msg{}, nil
+		}})
+		ts := httptest.NewServer(hs)
+		u, _ := url.Parse(ts.URL)
+		var lastSend time.Time
+		lt := &lossyRT{inner: &http.Transport{}, hold: hold, sent: &lastSend}
+		ch := &httpgrpc.Channel{Transport: lt, BaseURL: u}
+		callerDL := time.Now().Add(3 * time.Second)
+		ctx, cancel := context.WithDeadline(context.Background(), callerDL)
+		err := ch.Invoke(ctx, "/verif.Svc/U", &hx.Msg{}, &hx.Msg{})
+		cancel()
+		ts.Close()
+		desc := map[string]interface{}{"side": "end-to-end", "variant": "the first round trip is held for " + hold.String() + " and then fails with an unexpected EOF", "caller_timeout": "3s", "handler_ran": ran, "call_result": fmt.Sprint(err), "round_trips": lt.n}
+		ne++
+		if ran {
+			late := hdl.Sub(callerDL)
+			transit := arrival.Sub(lastSend)
+			desc["handler_minus_caller_ns"] = int64(late)
+			desc["transit_ns"] = int64(transit)
+			if !hhas {
+				o.Violate("the caller's deadline did not reach the handler", desc, nil, nil)
+			} else if late > transit+time.Millisecond+20*time.Millisecond {
+				o.Violate("handler deadline later than the caller's by more than transit + 1 ms", desc, late.String(), transit.String())
+			}
+		}
+	}
 	o.Stats["end_to_end_calls"] = ne
+}
+
+// lossyRT loses the first round trip: it holds it, then reports a dropped connection; later ones go through
+type lossyRT struct {
+	inner http.RoundTripper
+	hold  time.Duration
+	sent  *time.Time
+	n     int
+}
+
+func (l *lossyRT) RoundTrip(r *http.Request) (*http.Response, error) {
+	l.n++
+	if l.n == 1 {
+		if r.Body != nil {
+			io.Copy(io.Discard, r.Body)
+			r.Body.Close()
+		}
+		time.Sleep(l.hold)
+		return nil, io.ErrUnexpectedEOF
+	}
+	*l.sent = time.Now()
+	return l.inner.RoundTrip(r)
 }
 
 // stampRT notes when a request is handed to the transport
